@@ -143,7 +143,11 @@ func (reg *LWW) setValue(ctx context.Context, val []byte, priority uint64) error
 	} else if priority == curPrio {
 		curValue, err := reg.store.Get(ctx, key.Bytes())
 		if err != nil {
-			return err
+			if !errors.Is(err, corekv.ErrNotFound) {
+				return err
+			}
+			// A nil value is stored by omitting the key (see below).
+			curValue = client.CborNil
 		}
 
 		if bytes.Compare(curValue, val) >= 0 {
